@@ -12,15 +12,14 @@
 package sched
 
 import (
-	"bytes"
 	"fmt"
 	"regexp"
 	"runtime"
 	"runtime/debug"
 	"sort"
-	"strconv"
 	"strings"
 	"sync"
+	"sync/atomic"
 	"time"
 
 	"github.com/php-any/origami/utils/vshim"
@@ -100,6 +99,9 @@ type Exec struct {
 	choices  []choice
 
 	cfg     *Config
+	solo    atomic.Pointer[Thread] // the one running controlled thread, nil while two may run
+	meCalls atomic.Int64
+	foreign atomic.Int64
 	mu      sync.Mutex
 	byGid   map[int64]*Thread
 	arrive  chan *Thread
@@ -121,9 +123,11 @@ type Exec struct {
 	acc map[any]*locInfo
 }
 
+// access is an epoch (FastTrack): the access by thread tid at its clock clk happens-before an
+// operation of thread t exactly when clk <= t.vc[tid]; no vector needs to be copied.
 type access struct {
 	tid  int
-	vc   []int
+	clk  int
 	site string
 }
 
@@ -175,19 +179,11 @@ func install() {
 	})
 }
 
-func gid() int64 {
-	var buf [64]byte
-	n := runtime.Stack(buf[:], false)
-	f := bytes.Fields(buf[:n])
-	if len(f) < 2 {
-		return -1
-	}
-	id, _ := strconv.ParseInt(string(f[1]), 10, 64)
-	return id
-}
-
 type abortT struct{}
 
+// me identifies the calling controlled thread by goroutine id (calibrated fast path, see gid.go);
+// goroutines the scheduler does not know (signal handlers, timers, goroutines started before the
+// exploration) get nil and pass through every hook.
 func (x *Exec) me() *Thread {
 	x.mu.Lock()
 	t := x.byGid[gid()]
@@ -446,24 +442,30 @@ func (x *Exec) apply(t *Thread, o *pendOp) {
 		x.rlockVC[o.addr] = v
 	case vshim.KRead:
 		x.note(o.addr, t.ID, false, o.site)
-		if w := x.lastW[o.addr]; w != nil && w.tid != t.ID && !leq(w.vc, t.vc) {
+		if w := x.lastW[o.addr]; w != nil && w.tid != t.ID && w.clk > t.vc[w.tid] {
 			x.race("W/R", w, o.site)
 		}
-		if x.reads[o.addr] == nil {
-			x.reads[o.addr] = map[int]*access{}
+		rs := x.reads[o.addr]
+		if rs == nil {
+			rs = map[int]*access{}
+			x.reads[o.addr] = rs
 		}
-		x.reads[o.addr][t.ID] = &access{t.ID, clone(t.vc), o.site}
+		if r := rs[t.ID]; r != nil {
+			r.clk, r.site = t.vc[t.ID], o.site
+		} else {
+			rs[t.ID] = &access{t.ID, t.vc[t.ID], o.site}
+		}
 	case vshim.KWrite:
 		x.note(o.addr, t.ID, true, o.site)
-		if w := x.lastW[o.addr]; w != nil && w.tid != t.ID && !leq(w.vc, t.vc) {
+		if w := x.lastW[o.addr]; w != nil && w.tid != t.ID && w.clk > t.vc[w.tid] {
 			x.race("W/W", w, o.site)
 		}
 		for rid, r := range x.reads[o.addr] {
-			if rid != t.ID && !leq(r.vc, t.vc) {
+			if rid != t.ID && r.clk > t.vc[rid] {
 				x.race("R/W", r, o.site)
 			}
 		}
-		x.lastW[o.addr] = &access{t.ID, clone(t.vc), o.site}
+		x.lastW[o.addr] = &access{t.ID, t.vc[t.ID], o.site}
 	case vshim.KChanSend:
 		if !x.chClosed[o.addr] {
 			x.chVC[o.addr] = append(x.chVC[o.addr], clone(t.vc))
@@ -608,6 +610,11 @@ func runOnce(cfg *Config, prefix []int) *Exec {
 			// rendez-vous: receiver learns the sender's clock (send was queued by apply; recv popped it)
 		}
 		x.running = e[0]
+		if len(e) == 1 {
+			x.solo.Store(x.Threads[e[0]])
+		} else {
+			x.solo.Store(nil)
+		}
 		for _, id := range e {
 			t := x.Threads[id]
 			t.pend = nil
@@ -619,6 +626,7 @@ func runOnce(cfg *Config, prefix []int) *Exec {
 		}
 	}
 	// teardown
+	x.solo.Store(nil)
 	var alive []*Thread
 	for _, t := range x.Threads {
 		if !t.done {
